@@ -152,7 +152,7 @@ func hasPart(v ssa.Value, s string) bool {
 // roGuarded: the block is dominated by the false edge of a read-only test whose true edge returns.
 func roGuarded(b *ssa.BasicBlock) bool {
 	for _, g := range an.GuardingEdges(b) {
-		ifi := an.BlockIf(g.From)
+		ifi := g.If()
 		base, neg := an.CondBase(ifi.Cond)
 		if !pathEndsWith(fieldPath(base), "Storage", "ReadOnly") {
 			continue
@@ -445,7 +445,7 @@ func runFSIndex(c *core.Ctx) {
 				// the encoder's ok-edge dominates the rename
 				okEnc := false
 				for _, g := range an.GuardingEdges(s.call.Block()) {
-					x, nilSucc, ok := an.NilTest(an.BlockIf(g.From))
+					x, nilSucc, ok := an.NilTest(g.If())
 					if !ok || g.Succ != nilSucc {
 						continue
 					}
@@ -937,7 +937,7 @@ func runFSCleanup(c *core.Ctx) {
 						return
 					}
 					for _, g := range an.GuardingEdges(st.Block()) {
-						x, nilSucc, ok := an.NilTest(an.BlockIf(g.From))
+						x, nilSucc, ok := an.NilTest(g.If())
 						if !ok || g.Succ != nilSucc {
 							continue
 						}
